@@ -1,7 +1,7 @@
 """Helpers shared by the C14/C15 plugins (Store area)."""
 import hashlib, os, re
 
-PRELUDE = "/repo/marwood/prelude.scm"
+PRELUDE = os.path.join(REPO, "marwood/prelude.scm")
 
 
 def top_level_forms(text):
